@@ -85,6 +85,90 @@ theorem classify_canon (cs : List Char) : (classify cs).Canon := by
 theorem chars_injective {v w : Var} (hv : v.Canon) (hw : w.Canon) (h : v.chars = w.chars) : v = w := by
   rw [← classify_chars v hv, ← classify_chars w hw, h]
 
+/-- a digit is the character of its value -/
+theorem digitChar_of_isDigit {c : Char} (h : c.isDigit = true) : Nat.digitChar (c.toNat - '0'.toNat) = c ∧ c.toNat - '0'.toNat < 10 := by
+  obtain ⟨h1, h2⟩ := Char.isDigit_iff_toNat.1 h
+  have e0 : '0'.toNat = 48 := by decide
+  have e9 : '9'.toNat = 57 := by decide
+  rw [e0] at h1 ⊢; rw [e9] at h2
+  refine ⟨Char.toNat_inj.1 ?_, by omega⟩
+  rw [Nat.toNat_digitChar_of_lt_ten (by omega)]; omega
+
+/-- a canonical decimal string is `str()` of its value -/
+theorem toDigits_ofDigitChars : ∀ r : List Char, r ≠ [] → (∀ c ∈ r, c.isDigit = true) → (r.length = 1 ∨ r.head? ≠ some '0') →
+    Nat.toDigits 10 (Nat.ofDigitChars 10 r 0) = r := by
+  intro r
+  rw [← List.reverse_reverse r]
+  generalize r.reverse = l
+  induction l with
+  | nil => intro h; exact absurd rfl h
+  | cons d l' ih =>
+    rw [List.reverse_cons]
+    generalize l'.reverse = r' at ih ⊢
+    intro _ hdig hlead
+    obtain ⟨hd, hlt⟩ := digitChar_of_isDigit (hdig d (by simp))
+    rw [Nat.ofDigitChars_append, Nat.ofDigitChars_cons, Nat.ofDigitChars_nil]
+    by_cases hr : r' = []
+    · subst hr
+      simp only [Nat.ofDigitChars_nil, Nat.mul_zero, Nat.zero_add, List.nil_append]
+      rw [Nat.toDigits_of_lt_base hlt, hd]
+    · have hlead' : r'.length = 1 ∨ r'.head? ≠ some '0' := by
+        right
+        rcases hlead with h | h
+        · simp at h; exact absurd h hr
+        · cases r' with
+          | nil => exact absurd rfl hr
+          | cons a t => simpa using h
+      have ih' := ih hr (fun c hc => hdig c (by simp [hc])) hlead'
+      have hpos : 0 < Nat.ofDigitChars 10 r' 0 := by
+        apply Nat.pos_of_ne_zero
+        intro h0
+        rw [h0, Nat.toDigits_zero] at ih'
+        rcases hlead with h | h
+        · rw [← ih'] at h; simp at h
+        · rw [← ih'] at h; simp at h
+      rw [← Nat.toDigits_append_toDigits (by decide) hpos hlt, ih', Nat.toDigits_of_lt_base hlt, hd]
+
+theorem natChars_of_canonNat {r : List Char} {n : Nat} (h : canonNat? r = some n) : natChars n = r := by
+  cases r with
+  | nil => simp [canonNat?] at h
+  | cons c t =>
+    simp only [canonNat?] at h
+    split at h
+    · rename_i hc
+      simp at h; subst h
+      simp only [Bool.and_eq_true, List.all_eq_true, Bool.or_eq_true, List.isEmpty_iff, bne_iff_ne, ne_eq] at hc
+      refine toDigits_ofDigitChars (c :: t) (by simp) hc.1 ?_
+      rcases hc.2 with h | h
+      · left; simp [h]
+      · right; simpa using h
+    · simp at h
+
+theorem stripPre_some : ∀ {p cs r : List Char}, stripPre p cs = some r → cs = p ++ r
+  | [], cs, r, h => by cases cs <;> simp [stripPre] at h <;> simp [h]
+  | a :: p, [], r, h => by simp [stripPre] at h
+  | a :: p, c :: cs, r, h => by
+    simp only [stripPre] at h
+    split at h
+    · rename_i hac; rw [hac, stripPre_some h]; rfl
+    · simp at h
+
+/-- reading a string as a variable and printing the variable gives the string back: the name Python uses -/
+theorem chars_classify (cs : List Char) : (classify cs).chars = cs := by
+  unfold classify
+  cases h1 : (stripPre robddPre cs).bind canonNat? with
+  | some n =>
+    obtain ⟨r, hr, hn⟩ := Option.bind_eq_some_iff.1 h1
+    show robddPre ++ natChars n = cs
+    rw [natChars_of_canonNat hn, stripPre_some hr]
+  | none =>
+    cases h2 : (stripPre auxPre cs).bind canonNat? with
+    | some n =>
+      obtain ⟨r, hr, hn⟩ := Option.bind_eq_some_iff.1 h2
+      show auxPre ++ natChars n = cs
+      rw [natChars_of_canonNat hn, stripPre_some hr]
+    | none => show (String.ofList cs).toList = cs; exact String.toList_ofList
+
 theorem canon_isUser_or (v : Var) : isUser v ∨ (∃ n, v = .node n) ∨ (∃ n, v = .aux n) := by
   cases v with
   | user s => exact Or.inl trivial
